@@ -296,7 +296,8 @@ Fixpoint ew_loop (fuel : nat) (cx : wctx) (data : bytes) (c : rwc) (w : ew) : rw
                 (* handleTrailer *)
                 let tb := match ew_cur w2 with ECTrailer b => b | _ => [] end in
                 let w3 := ew_upd w2 (ew_wenv w2) (ew_envacc w2) 0 (ew_cur w2) true (ew_trailer_comp w2) in
-                let plain := if ew_trailer_comp w2 && negb (Nat.eqb (length tb) 0) then o_decompress (w_or cx) tb else Some tb in
+                let plain := if ew_trailer_comp w2 && negb (Nat.eqb (length tb) 0) && negb (Nat.eqb (length (c_resp_comp c1)) 0)
+                             then o_decompress (w_or cx) tb else Some tb in  (* a nil compression pool copies *)
                 match plain with
                 | None => (c1, ew_set_err w3, WFail)            (* decompress error: returned, not reported *)
                 | Some p =>
@@ -398,7 +399,7 @@ Definition tw_flush_message (cx : wctx) (c : rwc) (w : tw) : fres :=
   let b := match tw_buf w with Some b => b | None => [] end in
   let has_comp := negb (Nat.eqb (length (c_resp_comp c)) 0) in
   if e_trailer (tw_latest w) then
-    let plain := if e_compressed (tw_latest w) && negb (Nat.eqb (length b) 0) then o_decompress (w_or cx) b else Some b in
+    let plain := if e_compressed (tw_latest w) && negb (Nat.eqb (length b) 0) && has_comp then o_decompress (w_or cx) b else Some b in
     match plain with
     | None => FErr (decomp_class (w_or cx) b) c w false
     | Some p =>
